@@ -239,3 +239,8 @@ pub use crate::trees::verif_bp;
 /// C15: the streaming YAML emitter's private quoting decisions (`yaml/light.rs`).
 #[cfg(feature = "std")]
 pub use crate::yaml::light_verif_emit_hooks as yaml_emit;
+
+// C19: JSON value-access layer at arbitrary offsets (malformed-input totality).
+pub use crate::json::light::{
+    verif_decode_escapes, verif_nested_number_span, verif_parse_hex4, JsonNumber, JsonString,
+};
